@@ -16,6 +16,7 @@ def main(argv):
     mod = importlib.import_module(f"exoverif.props.{prop.lower()}")
     ctx = Ctx(prop, shard, nshards, seed_, tier, out)
     if len(argv) > 6 and argv[6] == "--replay":
+        os.environ["VERIF_NO_EXCLUDE"] = "1"
         # replay mode: run given cases (JSON list of {"name","case"}) without Hypothesis
         items = json.load(open(argv[7]))
         res = []
